@@ -1829,7 +1829,9 @@ class Interp:
                         return Bound(v, o.cls)
                     if v.kind == 'staticmethod':
                         return v
-                    raise Unsupported('decorated method %s' % v.short)
+                    self.note('decorated method %s analysed through its '
+                              'undecorated body' % v.short)
+                    return Bound(v, base)
                 return v
             return LibMethod(base, name)
         if isinstance(base, Sym) and base.op == 'cond':
@@ -1962,8 +1964,8 @@ class Interp:
     def call_value(self, callee, args, kwargs, state, node):
         if isinstance(callee, FuncInfo):
             if callee.kind == 'decorated':
-                raise Unsupported('call of decorated function ' +
-                                  callee.short)
+                self.note('decorated function %s analysed through its '
+                          'undecorated body' % callee.short)
             return self.call_function(callee, args, kwargs, state, node)
         if isinstance(callee, Closure):
             return self.call_function(callee.func, args, kwargs, state, node,
